@@ -39,6 +39,25 @@ PROGRAMS += [
     [("a", "v1"), ["||", ["a", "big"], ["a", "v2"]], ("b", "v3")],
     [["||", ["c", "big"], ["c", "v3"], ["c", "v2"]], ["||", ["c", "v2"], ["c", "big"]]],
 ]
+# keys that differ only in Unicode composition are different keys; the model and TLC see the ASCII aliases
+REAL = {"kc": "caf\u00e9", "kd": "cafe\u0301", "u/kc": "u/\u00e5ngstr\u00f6m", "u/kd": "u/a\u030angstro\u0308m"}
+ALIAS = {v: k_ for k_, v in REAL.items()}
+PROGRAMS += [
+    [("kc", "v1"), ("kd", "v2"), ("kc", "v3")],
+    [("u/kd", "v2"), ("u/kc", "big"), ("a", "v1"), ("u/kd", "v3")],
+]
+
+
+def real(key):
+    return REAL.get(key, key)
+
+
+def alias(name):
+    if name in ALIAS:
+        return ALIAS[name]
+    return name if name.isascii() else "nonascii:" + name.encode("unicode_escape").decode()
+
+
 PROGRAMS_THOROUGH = PROGRAMS + [
     [["||", ["a", "big"], ["a", "v3"]], ("a", "v1"), ["||", ["a", "v3"], ["a", "big"], ["a", "v2"]]],
     [("p/q", "v2"), ["||", ["p/q", "big"], ["p/q", "v3"]], ["||", ["p/q", "v3"], ["p/q", "big"]], ["||", ["p/q", "big"], ["p/q", "v2"]]],
@@ -70,7 +89,8 @@ def stored_bytes():
 def record(prog, vbytes):
     root = tempfile.mkdtemp(prefix="kvr-", dir=common.scratch())
     try:
-        lines = fsrec.strace_lines(root, {"values": VALUES, "sets": prog})
+        rprog = [([it[0]] + [[real(m[0]), m[1]] for m in it[1:]]) if it[0] == "||" else (real(it[0]), it[1]) for it in prog]
+        lines = fsrec.strace_lines(root, {"values": VALUES, "sets": rprog})
         calls = fsrec.parse(lines, root)
         events, paths, notes = fsrec.to_events(calls, root, vbytes)
     finally:
@@ -100,7 +120,8 @@ def record(prog, vbytes):
             else:
                 out.append({"ev": "return", "key": key})
         else:
-            out.append(e)
+            out.append(dict(e, path=alias(e["path"])) if "path" in e else e)
+    paths = [alias(p) for p in paths]
     keys = sorted({(it[1][0] if it[0] == "||" else it[0]) for it in prog} | set(paths))
     return out, keys, notes
 
@@ -145,7 +166,7 @@ def materialise_and_recover(prog, keys, prefixes, events, vbytes, vd, k, tag):
                     c = content(choice)
                     if c is None:
                         continue
-                    fp = os.path.join(root, p)
+                    fp = os.path.join(root, real(p))
                     os.makedirs(os.path.dirname(fp), exist_ok=True)
                     with open(fp, "wb") as f:
                         f.write(c)
@@ -155,7 +176,7 @@ def materialise_and_recover(prog, keys, prefixes, events, vbytes, vd, k, tag):
                         continue
                     want = tuple(pf["done"][p])
                     try:
-                        got = store.get(p)
+                        got = store.get(real(p))
                     except BaseException as e:   # noqa
                         vd.violation({"what": f"recovery: reading key {p} failed with {type(e).__name__} in a crash image "
                                               f"taken after event {j + 1} ({events[j]}) while {inflight or 'no key'} was being written",
